@@ -183,6 +183,17 @@ func (u *UserHash) writeHashStr(password string, isAdmin bool, mayCreate bool) e
 	}
 	defer file.Close() //nolint:errcheck
 
+	// If the (empty) file has just been created to reserve the name, it must not be
+	// left behind when anything fails before the new hash is moved in place.
+	committed := false
+	if mayCreate {
+		defer func() {
+			if !committed {
+				os.Remove(file.Name()) //nolint:errcheck
+			}
+		}()
+	}
+
 	tmp, err := u.store.getTempFile()
 	if err != nil {
 		return err
@@ -218,6 +229,7 @@ func (u *UserHash) writeHashStr(password string, isAdmin bool, mayCreate bool) e
 	if err := os.Rename(tmp.Name(), file.Name()); err != nil {
 		return err
 	}
+	committed = true
 
 	// Flush the move to disk
 	dir, err := os.Open(filepath.Dir(file.Name()))
